@@ -553,8 +553,7 @@ Lemma not_forgotten : forall es i,
 Proof. intros es i s Hs. apply (t_tracked s (run_T es init init_T)). exact Hs. Qed.
 
 (* ---------- restart: a fresh queue over a non-empty store (C04's "resumes retrying") ---------- *)
-Definition start (st : store) (nx : id) : state :=
-  mkState st [] [] [] [] SRun false 0 nx [] [] [] [] [].
+Definition start (st : store) (nx : id) : state := start_at st nx 0.
 Definition load_events (st : store) : list event := map (fun e => EAnnounce (m_ts (snd e)) (fst e)) st.
 
 Record loading (st : store) (nx : id) (s : state) : Prop := mkLoading {
@@ -596,13 +595,13 @@ Qed.
 (* after the start-up load of a store whose ids are below the allocation counter, the queue's
    invariant holds and every stored message is in the timetable: every theorem about
    continuations (not forgotten, never early, wake-up, ...) applies to the restarted queue *)
-Lemma restart_resumes : forall st nx, (forall i, st_get st i <> None -> i < nx) ->
-  let s := run (load_events st) (start st nx) in
+Lemma restart_resumes_at : forall st nx c, (forall i, st_get st i <> None -> i < nx) ->
+  let s := run (load_events st) (start_at st nx c) in
   Tinv s /\ s_store s = st /\ forall i, st_get st i <> None -> In i (qids_of (s_queued s)).
 Proof.
-  intros st nx Hlt s.
-  assert (L0 : loading st nx (start st nx)) by (constructor; cbn; auto; discriminate).
-  destruct (load_all_queued st nx st (start st nx) L0) as [[L1 L2 L3 L4 L5 L6] Hall]. fold (load_events st) in *. fold s in L1, L2, L3, L4, L5, L6, Hall.
+  intros st nx c Hlt s.
+  assert (L0 : loading st nx (start_at st nx c)) by (constructor; cbn; auto; discriminate).
+  destruct (load_all_queued st nx st (start_at st nx c) L0) as [[L1 L2 L3 L4 L5 L6] Hall]. fold (load_events st) in *. fold s in L1, L2, L3, L4, L5, L6, Hall.
   assert (Hq : forall i, st_get st i <> None -> In i (qids_of (s_queued s))).
   { intros i Hi. apply Hall. left. apply st_get_In. exact Hi. }
   split; [|split; [exact L1|exact Hq]].
@@ -616,3 +615,8 @@ Proof.
   - exact L6.
   - intros i Hi. left. apply Hq. exact Hi.
 Qed.
+
+Lemma restart_resumes : forall st nx, (forall i, st_get st i <> None -> i < nx) ->
+  let s := run (load_events st) (start st nx) in
+  Tinv s /\ s_store s = st /\ forall i, st_get st i <> None -> In i (qids_of (s_queued s)).
+Proof. intros st nx H. exact (restart_resumes_at st nx 0 H). Qed.
